@@ -11,6 +11,7 @@ package c11
 
 import (
 	"context"
+	"errors"
 	"crypto/sha256"
 	"encoding/hex"
 	"fmt"
@@ -318,6 +319,44 @@ type pool struct {
 	names  []string
 	groups [][]int // indices of names sharing a two-byte hash prefix (>= 2 members)
 	group  map[string]int
+	// special holds names found by search whose hash starts with a "default
+	// looking" two-byte pattern: the zero value first of all.
+	special map[[2]byte][]string
+}
+
+// specialPrefixes are the hash prefixes for which listed names are searched:
+// the zero value of a prefix and other patterns that uninitialised or
+// mis-decoded data tends to take.
+var specialPrefixes = [][2]byte{
+	{0x00, 0x00}, {0xff, 0xff}, {0x00, 0x01}, {0x01, 0x00}, {0x00, 0xff}, {0xff, 0x00},
+	{0x30, 0x30}, {0x20, 0x20}, {0x01, 0x01},
+}
+
+// findSpecial brute-forces, from the seed, names whose SHA-256 starts with each
+// of specialPrefixes (about 65k hashes per hit).
+func findSpecial(r *vkit.Run) map[[2]byte][]string {
+	rng := r.Rand("special", 0)
+	want := map[[2]byte]struct{}{}
+	for _, p := range specialPrefixes {
+		want[p] = struct{}{}
+	}
+	out := map[[2]byte][]string{}
+	start := rng.IntN(1 << 30)
+	tlds := []string{"com", "org", "co.uk", "net"}
+	missing := len(specialPrefixes)
+	for i := 0; i < 6_000_000 && missing > 0; i++ {
+		nm := fmt.Sprintf("b%d.c11-bucket.%s", start+i, tlds[i%len(tlds)])
+		h := sha256.Sum256([]byte(nm))
+		p := [2]byte{h[0], h[1]}
+		if _, ok := want[p]; !ok || len(out[p]) >= 2 {
+			continue
+		}
+		out[p] = append(out[p], nm)
+		if len(out[p]) == 2 {
+			missing--
+		}
+	}
+	return out
 }
 
 func buildPool(r *vkit.Run) *pool {
@@ -352,6 +391,12 @@ func buildPool(r *vkit.Run) *pool {
 		}
 		p.groups = append(p.groups, by[k])
 	}
+	p.special = findSpecial(r)
+	nsp := 0
+	for _, v := range p.special {
+		nsp += len(v)
+	}
+	r.Extra("pool_special_prefix_names", nsp)
 	r.Extra("pool_names", len(p.names))
 	r.Extra("pool_prefix_collision_groups", len(p.groups))
 	return p
@@ -387,6 +432,15 @@ func genList(rng *rand.Rand, p *pool, size int, prev []string) string {
 			z = z[strings.LastIndexByte(z, '.')+1:]
 		}
 		add(z)
+	}
+	// Names in the hash buckets of the zero prefix and of other default
+	// patterns: one zero-bucket name always, the others mostly.
+	for _, sp := range specialPrefixes {
+		for i, nm := range p.special[sp] {
+			if (sp == [2]byte{} && i == 0) || rng.IntN(4) != 0 {
+				add(nm)
+			}
+		}
 	}
 	for len(names) < size {
 		switch x := rng.IntN(100); {
@@ -609,6 +663,38 @@ func genTXTQuery(rng *rand.Rand, p *pool, suffix string, m *model) txtQuery {
 			return txtQuery{p.pick(rng), "no-suffix:ordinary"}
 		}
 	}
+	if rng.IntN(100) < 14 {
+		// A prefix asked more than once: literally, or in its four-character
+		// and legacy eight-character forms, alone or among distinct ones.
+		pref := func() string {
+			if len(m.names) > 0 && rng.IntN(10) < 7 {
+				h := sha256.Sum256([]byte(m.names[rng.IntN(len(m.names))]))
+				return hex.EncodeToString(h[:2])
+			}
+			return randHex(rng, 4)
+		}
+		a, b, c := pref(), pref(), pref()
+		leg := func(x string) string { return x + randHex(rng, 4) }
+		var labels []string
+		shape := rng.IntN(7)
+		switch shape {
+		case 0:
+			labels = []string{a, a}
+		case 1:
+			labels = []string{a, a, a}
+		case 2:
+			labels = []string{a, leg(a)}
+		case 3:
+			labels = []string{leg(a), a}
+		case 4:
+			labels = []string{a, b, a}
+		case 5:
+			labels = []string{b, a, leg(a), c}
+		default:
+			labels = []string{leg(a), b, leg(a), b, c}
+		}
+		return txtQuery{strings.Join(labels, ".") + suffix, fmt.Sprintf("repeat:shape%d", shape)}
+	}
 	n := 1
 	switch x := rng.IntN(100); {
 	case x < 50:
@@ -701,6 +787,31 @@ func bucketN(n int) int {
 	default:
 		return 40
 	}
+}
+
+// repeatedPrefixCase reports whether a well-formed hash query repeats a prefix
+// while the list behind suffix has a name in the zero-prefix bucket that the
+// query does not ask for: the inputs on which "one entry per requested label"
+// bookkeeping errors become visible.
+func repeatedPrefixCase(host, suffix string, m *model) bool {
+	body := strings.TrimSuffix(host, suffix)
+	if body == "" || len(m.byPrefix[[2]byte{}]) == 0 {
+		return false
+	}
+	seen := map[string]struct{}{}
+	repeated := false
+	for _, l := range strings.Split(body, ".") {
+		if len(l) < 4 {
+			return false
+		}
+		l = l[:4]
+		if _, ok := seen[l]; ok {
+			repeated = true
+		}
+		seen[l] = struct{}{}
+	}
+	_, zeroAsked := seen["0000"]
+	return repeated && !zeroAsked
 }
 
 // ---------------------------------------------------------------------------
@@ -945,6 +1056,9 @@ func (mo *monitor) checkMatcher(ctx context.Context, comp string, matcher *hashp
 		}
 	case txtWellFormed:
 		r.Eval(class, len(want) > 0)
+		if repeatedPrefixCase(q.Host, suffix, mods[suffix]) {
+			r.Bucket(comp+"_repeated_prefix_queries_with_zero_bucket_listed", 1)
+		}
 		if len(want) > 0 {
 			r.Bucket(comp+"_queries_with_hashes", 1)
 		}
@@ -1126,12 +1240,19 @@ const (
 type upstream struct {
 	mu    sync.Mutex
 	calls []dns.Question
+	// failNext makes the next call fail, as an upstream that is down does.
+	failNext atomic.Bool
 }
+
+var errUpstream = errors.New("c11: scripted upstream failure")
 
 func (u *upstream) ServeDNS(ctx context.Context, rw dnsserver.ResponseWriter, req *dns.Msg) error {
 	u.mu.Lock()
 	u.calls = append(u.calls, req.Question[0])
 	u.mu.Unlock()
+	if u.failNext.Swap(false) {
+		return errUpstream
+	}
 	resp := (&dns.Msg{}).SetReply(req)
 	q := req.Question[0]
 	hdr := dns.RR_Header{Name: q.Name, Rrtype: q.Qtype, Class: dns.ClassINET, Ttl: 60}
@@ -1297,13 +1418,21 @@ func (mo *monitor) newStack(worlds []*fworld, matcher filter.HashMatcher, errs *
 // query sends one question through the handler stack, as a DNS-over-TLS server
 // would after unpacking it.
 func (st *stack) query(qname string, qt uint16) (resp *dns.Msg, upCalls []dns.Question, obs fltObservation, err error) {
+	return st.queryEx(qname, qt, dns.ClassINET, false)
+}
+
+// queryEx is query with a question class (CHAOS asks for the debug answer) and
+// optionally with the upstream failing for this request.
+func (st *stack) queryEx(qname string, qt, qclass uint16, failUpstream bool) (resp *dns.Msg, upCalls []dns.Question, obs fltObservation, err error) {
 	st.mu.Lock()
 	st.obs = fltObservation{}
 	st.mu.Unlock()
 	st.up.take()
+	st.up.failNext.Store(failUpstream)
+	defer st.up.failNext.Store(false)
 	req := &dns.Msg{
 		MsgHdr:   dns.MsgHdr{Id: dns.Id(), RecursionDesired: true},
-		Question: []dns.Question{{Name: qname, Qtype: qt, Qclass: dns.ClassINET}},
+		Question: []dns.Question{{Name: qname, Qtype: qt, Qclass: qclass}},
 	}
 	ctx := dnsserver.ContextWithServerInfo(context.Background(), &dnsserver.ServerInfo{
 		Name: "c11_dot", Addr: "192.0.2.2:853", Proto: dnsserver.ProtoDoT,
@@ -1449,6 +1578,11 @@ func (mo *monitor) filterWorld() {
 				mo.checkStackHost(st, rng, worlds, pr, qt, map[string]any{"version": v, "probe": i})
 			}
 		}
+		// (4) A request for a listed host that does not end on the success
+		// path (upstream down, debug request), then an ordinary request for an
+		// unlisted host: the latter must not inherit anything.
+		mo.stackFaultHistories(st, r.Rand("filter/stackfaults", v), worlds, r.N(150, 800), map[string]any{"version": v, "history": "fault-then-clean"})
+
 		if e := errs.take(); len(e) > 0 {
 			r.Bucket("errors_collected_by_error_collector", int64(len(e)))
 			r.Extra("error_collector_examples", e)
@@ -1757,6 +1891,9 @@ func (mo *monitor) checkStackTXT(st *stack, rng *rand.Rand, mods map[string]*mod
 		}
 	case txtWellFormed:
 		r.Eval(class, len(want) > 0)
+		if repeatedPrefixCase(q.Host, suffix, mods[suffix]) {
+			r.Bucket("stack-txt_repeated_prefix_queries_with_zero_bucket_listed", 1)
+		}
 		if len(up) > 0 {
 			r.Violation("stack:hash-query-forwarded", "a query under a safe-browsing suffix was forwarded to the upstream", w)
 			return
@@ -1828,6 +1965,73 @@ func (mo *monitor) stackTXTPairs(st *stack, rng *rand.Rand, mods map[string]*mod
 		}
 		mo.checkStackTXT(st, rng, mods, txtQuery{second + suffix, kind}, where)
 		mo.r.Bucket("stack_txt_pairs", 1)
+	}
+}
+
+// stackFaultHistories: worlds[1] (adult blocking) works in replacement-host
+// mode, so a listed host's request is rewritten; that request is made to fail
+// after filtering (upstream error) or is a debug (CHAOS) request, and is
+// followed, on the same goroutine, by an ordinary request for a host that no
+// list holds, which goes through the usual host oracle.
+func (mo *monitor) stackFaultHistories(st *stack, rng *rand.Rand, worlds []*fworld, n int, where map[string]any) {
+	r := mo.r
+	adult := worlds[1]
+	if adult.repl != replFQDN || len(adult.cur.names) == 0 {
+		return
+	}
+	filterable := []uint16{dns.TypeA, dns.TypeAAAA, dns.TypeHTTPS}
+	for i := 0; i < n; i++ {
+		// A host that the adult list matches and the list before it does not.
+		var listed string
+		for try := 0; try < 50 && listed == ""; try++ {
+			c := prepend(rng, adult.cur.names[rng.IntN(len(adult.cur.names))], rng.IntN(2))
+			if adult.cur.expectHost(c, dns.TypeA).Matched && !worlds[0].cur.expectHost(c, dns.TypeA).Matched {
+				listed = c
+			}
+		}
+		if listed == "" {
+			continue
+		}
+		kind := "upstream-error"
+		qclass, fail := uint16(dns.ClassINET), true
+		if rng.IntN(2) == 0 {
+			kind, qclass, fail = "debug-request", dns.ClassCHAOS, false
+		}
+		qt := filterable[rng.IntN(3)]
+		var obs fltObservation
+		func() {
+			defer func() {
+				if p := recover(); p != nil {
+					r.Violation("panic:stack-fault-request", "the handler stack panicked on a request for a listed host that ends early",
+						map[string]any{"host": listed, "kind": kind, "panic": fmt.Sprint(p), "where": where})
+				}
+			}()
+			_, _, obs, _ = st.queryEx(wireName(rng, listed), qt, qclass, fail)
+		}()
+		r.Bucket("stack_faulted_listed_requests:"+kind, 1)
+		if obs.List == string(adult.id) && strings.HasSuffix(obs.Type, "ResultModifiedRequest") {
+			r.Bucket("stack_faulted_listed_requests_rewritten", 1)
+		}
+		// An unlisted host.
+		var clean hostProbe
+		for try := 0; try < 50; try++ {
+			c := prepend(rng, mo.pool.pick(rng), rng.IntN(2))
+			ok := true
+			for _, fw := range worlds {
+				if fw.cur.expectHost(c, dns.TypeA).Matched {
+					ok = false
+				}
+			}
+			if ok {
+				clean = hostProbe{c, "clean-after-" + kind}
+				break
+			}
+		}
+		if clean.Host == "" {
+			continue
+		}
+		mo.checkStackHost(st, rng, worlds, clean, filterable[rng.IntN(3)], where)
+		r.Bucket("stack_clean_requests_after_faulted_listed_request", 1)
 	}
 }
 
@@ -1913,7 +2117,9 @@ func (mo *monitor) checkStackHost(st *stack, rng *rand.Rand, worlds []*fworld, p
 		return
 	case !got:
 		r.Bucket("stack_host_passed", 1)
-		if len(up) != 1 || !strings.EqualFold(up[0].Name, qname) {
+		if len(up) == 1 && up[0].Name == dns.Fqdn(replFQDN) && !strings.EqualFold(up[0].Name, qname) {
+			r.Violation("stack:unlisted-host-rewritten-to-block-host", "a host that no filter matched was resolved as the block-page host (treated as listed)", w)
+		} else if len(up) != 1 || !strings.EqualFold(up[0].Name, qname) {
 			r.Violation("stack:unmatched-host-not-resolved", "an unmatched host question did not reach the upstream unchanged", w)
 		}
 		return
@@ -2354,6 +2560,13 @@ func TestCheck(t *testing.T) {
 	r.Require("stack_txt_answers_with_hashes", 300)
 	r.Require("stack_txt_queries_malformed", 150)
 	r.Require("stack_txt_pairs", 2000)
+	r.Require("stack_faulted_listed_requests_rewritten", 500)
+	r.Require("stack_faulted_listed_requests:upstream-error", 200)
+	r.Require("stack_faulted_listed_requests:debug-request", 200)
+	r.Require("stack_clean_requests_after_faulted_listed_request", 500)
+	r.Require("matcher_repeated_prefix_queries_with_zero_bucket_listed", 500)
+	r.Require("matcher-shared_repeated_prefix_queries_with_zero_bucket_listed", 300)
+	r.Require("stack-txt_repeated_prefix_queries_with_zero_bucket_listed", 300)
 	r.Require("stack_txt_empty_answers_after_disposed_nonempty_txt", 2000)
 	r.Require("stack_txt_queries_not-hash-query", 30)
 	r.Require("stack_host_matched", 100)
